@@ -1,6 +1,9 @@
 package main
 
 import (
+	"github.com/polydawn/rio/fs"
+	"github.com/polydawn/rio/fs/osfs"
+	"github.com/polydawn/rio/stitch"
 	"golang.org/x/sys/unix"
 	"bytes"
 	"context"
@@ -454,7 +457,59 @@ func packRootsAll(c *Ctx) {
 	}
 }
 
+// packMultiUntouched: stitch.PackMulti over a tree, some of whose requested paths do not exist (an output a job never
+// produced): whatever it answers, the tree is what it was, and an existing path gets the id a solo pack gives.
+func packMultiUntouched(c *Ctx, fmtName string) {
+	op := "packmulti-untouched " + fmtName
+	caseCounter++
+	base := filepath.Join(c.Work, fmt.Sprintf("pm%d", caseCounter))
+	defer rmrf(base)
+	tree := filepath.Join(base, "tree")
+	fsx := Fileset{{Name: "", Kind: 'd', Perms: 0755, Uid: 3, Gid: 4, Sec: 1e9}, {Name: "out", Kind: 'd', Perms: 0750, Uid: 3, Gid: 4, Sec: 1e9 - 500}, {Name: "out/result", Kind: 'f', Perms: 0644, Uid: 3, Gid: 4, Sec: 1e9 - 700, Content: []byte("r")},
+		{Name: "src", Kind: 'd', Perms: 0755, Uid: 5, Gid: 6, Sec: 1e9 - 900}, {Name: "src/f", Kind: 'f', Perms: 0600, Uid: 5, Gid: 6, Sec: 1e9 - 950, Content: []byte("f")}}
+	os.MkdirAll(base, 0755)
+	if Materialize(fsx, tree, nil) != nil {
+		c.EmitR(op, "skip", "skip")
+		return
+	}
+	fn := funcsFor(fmtName)
+	pf := api.MustParseFilesetPackFilter(losslessPackStr)
+	solo, e0, p0 := safeCall(func() (api.WareID, error) {
+		return fn.pack(context.Background(), api.PackType(fmtName), filepath.Join(tree, "out"), pf, "", rio.Monitor{})
+	})
+	before, _ := Snapshot(tree)
+	for _, paths := range [][]string{{"/out", "/out/logs/build"}, {"/src", "/nowhere/deep/x", "/out"}, {"/out/a/b/c/d"}} {
+		var parts []stitch.PackSpec
+		for _, p := range paths {
+			parts = append(parts, stitch.PackSpec{Path: fs.MustAbsolutePath(p), PackType: api.PackType(fmtName), Filter: pf})
+		}
+		var got map[api.AbsPath]api.WareID
+		_, err, pan := safeCall(func() (api.WareID, error) {
+			var e error
+			got, e = stitch.PackMulti(context.Background(), fn.pack, osfs.New(fs.MustAbsolutePath(tree)), parts)
+			return api.WareID{}, e
+		})
+		if pan != "" {
+			c.PropFail("panic-pack", "PackMulti panicked: "+pan, op)
+		}
+		after, _ := Snapshot(tree)
+		if d := DiffFilesets(before, after, true); d != "" {
+			c.PropFail("pack-mutates-source", fmt.Sprintf("PackMulti of %v (answer: %v) changed the tree it packs from: %s", paths, err, d), op)
+			break
+		}
+		if err == nil && e0 == nil && p0 == "" {
+			if g, ok := got["/out"]; ok && g != solo {
+				c.PropFail("pack-mutates-source", fmt.Sprintf("PackMulti of %v reports %s for /out, a solo pack of the untouched directory gives %s", paths, g, solo), op)
+			}
+		}
+		c.H("packmulti-untouched:" + catOf(err))
+	}
+	c.EmitR(op, "skip", "skip")
+}
+
 func rtEngineRest(c *Ctx) {
+	packMultiUntouched(c, "tar")
+	packMultiUntouched(c, "zip")
 	n, maxEnt := 24, 8
 	if c.Tier == "thorough" {
 		n, maxEnt = 400, 30
